@@ -8,6 +8,8 @@ namespace Jap.Typing
 
 def allDigits (l : List Char) : Prop := ∀ c ∈ l, c.isDigit = true
 
+instance (l : List Char) : Decidable (allDigits l) := by unfold allDigits; exact inferInstance
+
 /-- a token as `repr` writes it -/
 def Tok.Valid : Tok → Prop
   | .dec ip fp ex => ip ≠ [] ∧ allDigits ip ∧ allDigits fp ∧
